@@ -34,6 +34,7 @@ RULE = (
     'with >=3 elements mixing attribute, string key and index, or a directive sequence with a '
     'set and a fiddler that do not commute.'
 )
+RULE += (' ' + 'Round 3: a fiddler that stores its list-literal argument by reference, recurring literals, set: into an element.')
 ASSUMPTIONS = [
     'domain as stated in the property (quote-free, =-free keys; literal leaves; no targets inside tuples)',
     'values whose repr is not a Python literal (inf, nan) are outside the write-back clause',
